@@ -25,12 +25,13 @@ build() {
     # types (Path::exists and friends then ask the real tree), then without S7, then without both.
     cp "$GENSIM/build.log" "$GENSIM/build.first.log"
     built=""
-    for feats in "likelysubtags" "path_shadow" ""; do
+    for feats in "likelysubtags" "path_shadow" "" "likelysubtags nogens" "nogens"; do
       if (cd "$GENSIM" && cargo build --release --offline --quiet --no-default-features --features "$feats" 2>"$GENSIM/build.log"); then
         built="yes"
         case "$feats" in
           likelysubtags) echo "note: the generators do not compile against the simulator's Path/PathBuf wrappers; built with the real path types (see $GENSIM/build.first.log)" >&2 ;;
           path_shadow) echo "note: the library does not compile inside the simulator; built without the concurrent-callers batch S7 (see $GENSIM/build.first.log)" >&2 ;;
+          *nogens*) echo "note: the generator programs do not compile behind the simulator's seams; built WITHOUT them: no simulation batches, the real binaries are judged instead (see $GENSIM/build.first.log)" >&2 ;;
           *) echo "note: built with the real path types and without the concurrent-callers batch S7 (see $GENSIM/build.first.log)" >&2 ;;
         esac
         break
